@@ -23,6 +23,11 @@ ELEMS = {
     "pushb": (CALL("pb"), "(Push<Str<Sa>>, Str<Sb>)"),
     # pops an entry pushed before the repetition, pushes another text, then fails: the restore must bring the old entry back
     "swap": (CALL("sw"), "(DROP, (Push<Str<Sb>>, Str<Sc>))"),
+    # an optional inside the element pops an entry pushed before the cell; the element then fails: Option / repetition restore by value
+    "dropc": (CALL("dc"), "(Option<DROP>, Str<Sc>)"),
+    # an element that can match empty without touching the stack: a bounded repetition still records every iteration up to MAX
+    # (unbounded ones never return: no cell)
+    "opta": (OPT(S("a")), "Option<Str<Sa>>"),
 }
 
 
@@ -34,8 +39,9 @@ def cells(tier):
             for mn in rng:
                 for mx in rng:
                     out.append(dict(kind="minmax", ek=ek, skip=skip, mn=mn, mx=mx))
-                out.append(dict(kind="min", ek=ek, skip=skip, mn=mn, mx=-1))
-    for ek in ("str", "alt", "pop", "pushb"):
+                if ek != "opta":
+                    out.append(dict(kind="min", ek=ek, skip=skip, mn=mn, mx=-1))
+    for ek in ("str", "alt", "pop", "pushb", "dropc"):
         for n in range(0, 4):
             out.append(dict(kind="array", ek=ek, skip=0, mn=n, mx=n))
         out.append(dict(kind="atomicrepeat", ek=ek, skip=0, mn=0, mx=-1))
@@ -46,7 +52,8 @@ def cells(tier):
     if tier == "quick":
         keep = []
         for i, c in enumerate(out):
-            if c["kind"] != "minmax" or c["ek"] in ("str", "pop", "pushb", "swap") or (c["mn"] + 2 * c["mx"] + c["skip"]) % 3 == 0:
+            small = c["mn"] <= 2 and c["mx"] <= 2
+            if c["kind"] != "minmax" or c["ek"] in ("str", "pop") or (c["ek"] in ("pushb", "swap", "opta", "dropc") and small) or (c["mn"] + 2 * c["mx"] + c["skip"]) % 3 == 0:
                 keep.append(c)
         out = keep
     for i, c in enumerate(out):
@@ -80,12 +87,13 @@ def model_and_type(c):
 def build(tier):
     cs = cells(tier)
     rules = [{"name": "WHITESPACE", "ty": "silent", "expr": S(" ")}, {"name": "pb", "ty": "atomic", "expr": SEQ(PUSH(S("a")), S("b"))},
-             {"name": "sw", "ty": "atomic", "expr": SEQ(CALL("DROP"), PUSH(S("b")), S("c"))}]
+             {"name": "sw", "ty": "atomic", "expr": SEQ(CALL("DROP"), PUSH(S("b")), S("c"))},
+             {"name": "dc", "ty": "atomic", "expr": SEQ(OPT(CALL("DROP")), S("c"))}]
     arms = []
     for c in cs:
         cell, ty, cnt = model_and_type(c)
         sk = c["skip"]
-        stacky = c["ek"] in ("pop", "drop", "swap")
+        stacky = c["ek"] in ("pop", "drop", "swap", "dropc")
         if stacky:
             # PUSH("a"){,3} ~ ";" ~ cell   with the same SKIP everywhere, exactly the generated shape
             body = SEQ(REP(PUSH(S("a")), 0, 3), S(";"), cell)
